@@ -122,13 +122,16 @@ Definition guarded {R P : Type} (ro : bool) (rest : unit -> R * list P) : guard_
 
 (* one observation of the real endpoint: created by local.NewEndpoint with the
    given role and configured mode, then (after one Scan) asked to Stage a
-   non-empty request and to perform a non-empty Transition *)
+   non-empty request (in some request shapes every requested digest is already
+   present in the endpoint's own root, so nothing would have to be transmitted)
+   and to perform a non-empty Transition *)
 Record guard_obs := {
   g_alpha : bool;
   g_mode : option mode;
   g_stage_refused : bool;        (* Stage returned the read-only error *)
   g_transition_refused : bool;   (* Transition returned the read-only error *)
-  g_root_unchanged : bool        (* the root's content is what it was before *)
+  g_root_unchanged : bool;       (* the root's content is what it was before *)
+  g_staging_unchanged : bool     (* the endpoint's staging store is what it was before *)
 }.
 
 (* correspondence with the model of the guard *)
@@ -136,9 +139,10 @@ Definition guard_corr (o : guard_obs) : bool :=
   Bool.eqb (g_stage_refused o) (read_only (g_alpha o) (g_mode o))
   && Bool.eqb (g_transition_refused o) (read_only (g_alpha o) (g_mode o)).
 
-(* the property on the observation: a one-way source refuses both and its
-   root stays untouched *)
+(* the property on the observation: a one-way source refuses both, and
+   neither its root nor its staging store is touched *)
 Definition guard_ok (o : guard_obs) : bool :=
   if g_alpha o && unidirectional (effective_mode (g_mode o))
   then g_stage_refused o && g_transition_refused o && g_root_unchanged o
+       && g_staging_unchanged o
   else true.
